@@ -46,7 +46,9 @@ class Gen:
         for _ in range(n):
             c = self.r.random()
             if c < 0.28 and ndef < self.max_defers:
-                out.append(('defer', self.mark())); ndef += 1
+                # some deferred expressions contain a loop with its own continue / break (jumps that stay inside the defer)
+                kind = self.r.choice(['defer', 'defer', 'defer', 'deferloop', 'deferbreak'])
+                out.append((kind, self.mark())); ndef += 1
             elif c < 0.40:
                 out.append(('mark', self.mark()))
             elif c < 0.55 and depth > 0:
@@ -110,6 +112,10 @@ def emit(name, body, conds, with_try):
         for s in stmts:
             t = s[0]
             if t == 'defer': lines.append('%sdefer mark(%d);' % (pad, s[1]))
+            elif t == 'deferloop':
+                lines.append('%sdefer { dj%d : u8 = 0; while dj%d < 2 { dj%d = dj%d + 1; if dj%d == 1 { continue; } mark(%d); } };' % ((pad,) + (s[1],) * 5 + (s[1],)))
+            elif t == 'deferbreak':
+                lines.append('%sdefer { dk%d : u8 = 0; while dk%d < 3 { dk%d = dk%d + 1; mark(%d); break; } };' % ((pad,) + (s[1],) * 4 + (s[1],)))
             elif t == 'mark': lines.append('%smark(%d);' % (pad, s[1]))
             elif t == 'block':
                 lines.append(pad + ('`%s: ' % s[1] if s[1] else '') + '{'); go(s[2], ind + 1); lines.append(pad + '}')
@@ -160,7 +166,7 @@ def ref_trace(body, assign, cond_types):
         try:
             for s in stmts:
                 t = s[0]
-                if t == 'defer': defers.append(s[1])
+                if t in ('defer', 'deferloop', 'deferbreak'): defers.append(s[1])     # each of the three prints its mark once
                 elif t == 'mark': trace.append(s[1])
                 elif t in ('block', 'vblock'):
                     try:
@@ -233,14 +239,14 @@ def features(body, assign, cond_types):
     def walk(stmts, in_loop, pending_here, pending_outer_of_loop):
         for i, s in enumerate(stmts):
             t = s[0]
-            if t == 'defer':
+            if t in ('defer', 'deferloop', 'deferbreak'):
                 pending_here = True
             elif t in ('block', 'vblock'):
                 walk(s[2], in_loop, False, pending_outer_of_loop or (pending_here and in_loop))
             elif t == 'loop':
                 walk(s[3], True, False, False)
             elif t == 'if':
-                later_defer = any(x[0] == 'defer' for x in stmts[i + 1:])
+                later_defer = any(x[0] in ('defer', 'deferloop', 'deferbreak') for x in stmts[i + 1:])
                 for e in s[2]:
                     if e[0] in ('break', 'continue', 'return'):
                         kinds.add(e[0])
@@ -395,6 +401,8 @@ def curated():
     P.append(('k_optvoid_fn', [('defer', 1), ('if', ('b', 0), [('return',)]), ('defer', 2), ('mark', 3)], ['bool'], 'void'))
     P.append(('k_optvoid_try', [('defer', 1), ('try', ('b', 0)), ('defer', 2), ('mark', 3)], ['bool'], 'void'))
     P.append(('k_optvoid_block', [('defer', 1), ('loop', None, 'i1', [('defer', 2), ('vblock', 'v1', [('defer', 3), ('if', ('it', 0, 'i1'), [('break', 'v1')]), ('defer', 4), ('mark', 5)])])], ['u8'], False))
+    P.append(('k_defer_with_loop_return', [('defer', 1), ('block', None, [('deferloop', 2), ('if', ('b', 0), [('return',)]), ('mark', 3)]), ('mark', 4)], ['bool'], False))
+    P.append(('k_defer_with_break_break', [('defer', 1), ('block', 'a', [('deferbreak', 2), ('block', None, [('defer', 3), ('if', ('b', 0), [('break', 'a')]), ('mark', 4)])]), ('mark', 5)], ['bool'], False))
     P.append(('k_continue_lab', [('loop', 'o', 'i1', [('defer', 1), ('loop', None, 'i2', [('defer', 2), ('if', ('b', 0), [('continue', 'o')]), ('mark', 3)])])], ['bool'], False))
     return P
 
